@@ -52,12 +52,8 @@ theorem applyRes_noHalt (cfg : Cfg) (pol : Policy) (step : Nat) (tickEv : Ev) (d
       rcases hc with hc | rfl
       · exact h c hc
       · rfl
-    · intro c hc
-      simp only [List.mem_append, List.mem_cons, List.mem_nil_iff, or_false] at hc
-      rcases hc with hc | rfl
-      · exact h c hc
-      · rfl
-    · split
+    all_goals
+      split
       · split
         · intro c hc
           simp only [List.mem_append, List.mem_cons, List.mem_nil_iff, or_false] at hc
